@@ -313,6 +313,9 @@ class _SpyneJsonRpc1(JsonDocument):
             raise ValidationError((body, err), "Request data not found")
 
         ctx.protocol.error = False
+        if err is not None and message is self.REQUEST:
+            raise ValidationError(err, "A request can't be a fault")
+
         if err is not None:
             ctx.in_body_doc = err
             ctx.protocol.error = True
@@ -363,7 +366,7 @@ class _SpyneJsonRpc1(JsonDocument):
                 headers = [None] * len(header_class)
                 for i, (header_doc, head_class) in enumerate(
                                           zip(ctx.in_header_doc, header_class)):
-                    if header_doc is not None and i < len(header_doc):
+                    if header_doc is not None:
                         headers[i] = self._doc_to_object(ctx, head_class,
                                                      header_doc, self.validator)
 
@@ -405,24 +408,29 @@ class _SpyneJsonRpc1(JsonDocument):
                 header_message_class = ctx.descriptor.out_header
                 body_message_class = ctx.descriptor.out_message
 
-            # assign raw result to its wrapper, result_message
-            out_type_info = body_message_class._type_info
-            out_object = body_message_class()
-            bm_attrs = self.get_cls_attrs(body_message_class)
+            if message is self.RESPONSE and ctx.descriptor.is_out_bare():
+                # the message is the return value itself
+                out_object, = ctx.out_object
 
-            keys = iter(out_type_info)
-            values = iter(ctx.out_object)
-            while True:
-                try:
-                    k = next(keys)
-                except StopIteration:
-                    break
-                try:
-                    v = next(values)
-                except StopIteration:
-                    v = None
+            else:
+                # assign raw result to its wrapper, result_message
+                out_type_info = body_message_class._type_info
+                out_object = body_message_class()
+                bm_attrs = self.get_cls_attrs(body_message_class)
 
-                out_object._safe_set(k, v, body_message_class, bm_attrs)
+                keys = iter(out_type_info)
+                values = iter(ctx.out_object)
+                while True:
+                    try:
+                        k = next(keys)
+                    except StopIteration:
+                        break
+                    try:
+                        v = next(values)
+                    except StopIteration:
+                        v = None
+
+                    out_object._safe_set(k, v, body_message_class, bm_attrs)
 
             ctx.out_document[self.BODY] = ctx.out_body_doc = \
                              self._object_to_doc(body_message_class, out_object)
